@@ -142,9 +142,9 @@ pub fn cap_run(case: &Case, deadline: bool, sched: Sched) -> Result<CapOut, Stri
             let ops = guarded(|| {
                 with_lookups!(seq, oldc, newc, |o, n| {
                     if deadline {
-                        capture_diff_deadline(alg, o, seq.or(), n, seq.nr(), dl)
+                        capture_diff_deadline(alg, o, seq.or_abs(), n, seq.nr_abs(), dl)
                     } else {
-                        capture_diff(alg, o, seq.or(), n, seq.nr())
+                        capture_diff(alg, o, seq.or_abs(), n, seq.nr_abs())
                     }
                 })
             })?;
@@ -230,8 +230,15 @@ pub fn cap_run(case: &Case, deadline: bool, sched: Sched) -> Result<CapOut, Stri
         }
     };
     let st = clock.borrow();
+    let (so, sn) = if case.entry == CapEntry::Ranges {
+        seq.shifts()
+    } else {
+        (0, 0)
+    };
+    // the ratio is computed from op lengths only, so `raw` may stay shifted
+    let ops = crate::oracle::unshift_ops(ops_of(&raw), so, sn)?;
     Ok(CapOut {
-        ops: ops_of(&raw),
+        ops,
         raw,
         old_ids,
         new_ids,
